@@ -976,6 +976,13 @@ fn corpus() -> Vec<(String, Vec<u8>)> {
     add("n_trailing_blank", "text   \n\n\n");
     add("n_crlf", "#let x = 1\r\n#let y  = 2\r\n");
     add("empty", "");
+    // tiny sources whose layout still changes between column 0 and 8
+    add("tiny_call", "#f(a)\n");
+    add("tiny_paren", "#(a)\n#(a,)\n");
+    add("tiny_field", "#a.b.c()\n");
+    add("tiny_math", "$a b$\n$ a $\n");
+    add("tiny_block", "#{a}\n#[ab]\n");
+    add("tiny_binary", "#(a+b)\n");
     add("ws_only", "   \n\n");
     add("comments", "#f(a, // c1\n  b, /* c2 */ c)\n// end");
     add("off", "// @typstyle off\n#f( 1,2 )\n#g( 3,4 )\n");
